@@ -29,6 +29,7 @@ CASES = [
     (r'ef\.scan', r'.*', ['ef_dict', 'ef_seq']),
     (r'ef\.(guards|dict).*', r'.*', ['ef_dict']),
     (r'vfilter\..*', r'.*', ['vfilter']),
+    (r'vfunc\.get', r'.*', ['vfunc']),
     (r'(shard_edge|k\.setup_graphs|k\.sig_high_bits)', r'.*', ['shard_edge']),
     (r'lenders\.take', r'.*', ['lenders_take']),
     (r'lenders\..*', r'.*', ['lenders']),
@@ -37,7 +38,7 @@ CASES = [
     (r'bfv\.copy.*', r'.*', ['bfv_copy']),
     (r'bfv\.unaligned.*', r'.*', ['bfv_unaligned']),
     (r'bfv\.apply.*', r'.*', ['bfv_apply']),
-    (r'bfv\..*', r'.*', ['bfv_ops', 'bfv_copy']),
+    (r'bfv\..*', r'.*', ['bfv_ops', 'bfv_copy', 'bfv_misc']),
     (r'bitvec\.iter', r'.*', ['bitvec_iter_ones', 'bitvec_iter_zeros', 'bitvec_ops']),
     (r'bitvec\.core', r'(count_ones|eq|fill|flip|reset)', ['bitvec_stale', 'bitvec_ops']),
     (r'bitvec\.core', r'.*', ['bitvec_ops', 'bitvec_stale']),
